@@ -8,7 +8,7 @@
     The reference decoder is a whole-string, look-ahead definition read off
     Unicode Table 3-7 (well-formed UTF-8 byte sequences) with the
     maximal-subpart replacement rule; it never mentions decoder states. *)
-From InvokeVerif Require Export Common.ByteText.
+From InvokeVerif Require Export Common.ByteText Common.MirrorStream.
 Local Open Scope N_scope.
 
 Definition is_cont (b : N) : bool := in_range 128 191 b.
@@ -100,13 +100,19 @@ Definition stderr_hidden (h : hide_req) (async err_given : bool) : bool :=
 
 (** Judge an observed run: [out_bytes]/[err_bytes] are the complete byte streams
     the command wrote to its stdout / stderr pipe.  Under a pty there is no
-    stderr pipe (the kernel merges both into the pty): captured stderr is empty. *)
+    stderr pipe (the kernel merges both into the pty): captured stderr is empty.
+    [mo]/[me] describe the stream objects the output is forwarded to (advertised
+    encoding; recording stream or TextIOWrapper with its own error handler) and
+    [got_out_stream]/[got_err_stream] are their contents afterwards: a stream that
+    is not hidden holds what an identical stream holds after ONE write of the
+    complete expected text -- for a recording stream that text itself, whatever
+    encoding it advertises -- and a hidden one what it holds after no write at all. *)
 Definition spec_ok (e : enc) (out_bytes err_bytes : bytes) (h : hide_req)
-           (async out_given err_given pty : bool)
+           (async out_given err_given pty : bool) (mo me : mirror)
            (got_stdout got_stderr got_out_stream got_err_stream : text) : bool :=
   let want_out := ref_decode e out_bytes in
   let want_err := if pty then [] else ref_decode e err_bytes in
   text_eqb got_stdout want_out &&
   text_eqb got_stderr want_err &&
-  text_eqb got_out_stream (if stdout_hidden h async out_given then [] else want_out) &&
-  text_eqb got_err_stream (if stderr_hidden h async err_given then [] else want_err).
+  text_eqb got_out_stream (stream_content mo (if stdout_hidden h async out_given then [] else [want_out])) &&
+  text_eqb got_err_stream (stream_content me (if stderr_hidden h async err_given then [] else [want_err])).
